@@ -335,8 +335,9 @@ def main(argv):
         selftest = {"caught": caught, "missed": missed, "skipped_pattern_not_found": skipped}
         print("mutation self-test: %d caught, %d missed, %d skipped" % (len(caught), len(missed), len(skipped)))
         resh = mutate.run("verus", prop=prop, quiet=True, harmless=True)
-        loud = [r[0] for r in resh if r[1] != "QUIET" and not r[1].startswith("SKIP")]
+        loud = [r[0] for r in resh if r[1].startswith("FALSE-ALARM")]
         selftest["harmless_quiet"] = [r[0] for r in resh if r[1] == "QUIET"]
+        selftest["harmless_undecided_no_alarm"] = [r[0] for r in resh if r[1].startswith("UNDECIDED-no-alarm")]
         selftest["harmless_not_quiet"] = loud
         for mname in loud:
             undecided.append("mutation self-test: behaviour-preserving edit %s is NOT accepted by the current checks" % mname)
